@@ -16,7 +16,44 @@ use ruma_common::{
 };
 use serde_json::{json, Map, Value};
 
-const TYPES: [&str; 11] = [
+/// near misses of the types with special rules: not special at all (every content key goes), but a lookup by
+/// suffix, by prefix, case-insensitively or after trimming would treat them like the type they resemble.
+/// Their contents are generated over the key universe of that type.
+const NEAR_MISSES: [(&str, &str); 12] = [
+    ("member", "m.room.member"),
+    ("create", "m.room.create"),
+    ("join_rules", "m.room.join_rules"),
+    ("power_levels", "m.room.power_levels"),
+    ("history_visibility", "m.room.history_visibility"),
+    ("redaction", "m.room.redaction"),
+    ("aliases", "m.room.aliases"),
+    ("M.ROOM.MEMBER", "m.room.member"),
+    ("m.room.member.x", "m.room.member"),
+    ("m.room.power_level", "m.room.power_levels"),
+    (" m.room.create", "m.room.create"),
+    ("xm.room.join_rules", "m.room.join_rules"),
+];
+
+fn universe(ty: &str) -> &'static [&'static str] {
+    match NEAR_MISSES.iter().find(|(t, _)| *t == ty) {
+        Some((_, like)) => spec::content_universe(like),
+        None => spec::content_universe(ty),
+    }
+}
+
+const TYPES: [&str; 23] = [
+    "member",
+    "create",
+    "join_rules",
+    "power_levels",
+    "history_visibility",
+    "redaction",
+    "aliases",
+    "M.ROOM.MEMBER",
+    "m.room.member.x",
+    "m.room.power_level",
+    " m.room.create",
+    "xm.room.join_rules",
     "m.room.member",
     "m.room.create",
     "m.room.join_rules",
@@ -318,7 +355,7 @@ fn base_event(ty: &str) -> Map<String, Value> {
 }
 
 fn content_for(ty: &str, subset: u32, kind_shift: usize, tpi: Option<&Value>) -> Map<String, Value> {
-    let uni = spec::content_universe(ty);
+    let uni = universe(ty);
     let mut c = Map::new();
     for (i, k) in uni.iter().enumerate() {
         if subset & (1 << i) != 0 {
@@ -339,7 +376,7 @@ fn content_for(ty: &str, subset: u32, kind_shift: usize, tpi: Option<&Value>) ->
 
 /// enumerate the cases of one (version, type) shard
 fn cases_for(v: u8, ty: &str, f: &mut dyn FnMut(Case)) {
-    let uni = spec::content_universe(ty);
+    let uni = universe(ty);
     let nbits = uni.len() + 1;
     let tpis = tpi_shapes();
     // (a) every subset of the content universe, all top-level keys + a few sensitive configs
